@@ -469,9 +469,6 @@ example : ((bufRun [1, 2, 3] [{ text := [97, 97] }, { text := [] }, { text := [9
     IS one atomic step with respect to other Python threads -/
 theorem C20_gil_facts : Gen.noNogil = true ∧ Gen.noWithGil = true ∧ Gen.noAllowThreads = true := by decide
 
-/-- … while the buffer IS shared (module-level static), so the obligation is not moot -/
-theorem C20_buffer_is_shared : Gen.bufferIsModuleStatic = true := by decide
-
 /-! ### non-vacuity: a real race on the tiny instance -/
 
 namespace Tiny
